@@ -135,6 +135,13 @@ class ShutilP:
             g.write(data[len(data) // 2:])
         return dst
 
+    copyfile = copy
+    copy2 = copy
+
+    def move(self, src, dst, *a, **k):
+        CTL.before(("replace", role_of(dst), role_of(src)))
+        return _shutil.move(src, dst, *a, **k)
+
     def __getattr__(self, n):
         return getattr(_shutil, n)
 
